@@ -9,19 +9,24 @@
 // the observed trace is producible by the (proved) model for that script (trace membership).
 //
 // Script line:   <proto> <cfg> <step> <step> ...
-//   proto  gqlws | tws                        (graphql-ws | graphql-transport-ws)
-//   cfg    letters: k keep-alive ticker, o pong-only ticker, p ping ticker (MissingPongOk), s stubborn resolver
-//          (ignores cancellation), r close reason on the connection context, t InitTimeout configured; "-" none
-//   step   m:<wire type>:<id>:<payload>:<tag>  client sends a JSON frame   (id "-" = none)
-//              payload: n none | num (42) | obj ({}) | rej ({"reject":true}) | sub (valid subscription, operation S<tag>)
-//                       | badq (syntax error) | pq (valid, refused by an operation parameter mutator with a user-kind error)
-//          g            client sends a frame that is not JSON
-//          a            client closes the TCP connection abruptly      z  client sends a close frame
-//          r:<cmd>:<tag> resolver event for the operation started with tag: emit | end | err (AddSubscriptionError+end)
-//                       | adderr (AddSubscriptionError only) | panic
-//          sc           server cancels the connection context          it  wait for the init timeout
-//          ?            settle, then snapshot
-//   a step ending in "~" is not followed by a settle (it races with the next step)
+//
+//	proto  gqlws | tws                        (graphql-ws | graphql-transport-ws)
+//	cfg    letters: k keep-alive ticker, o pong-only ticker, p ping ticker (MissingPongOk), s stubborn resolver
+//	       (ignores cancellation), r close reason on the connection context, t InitTimeout configured,
+//	       v the InitFunc returns a derived context (context.WithValue) and an ack payload, d the InitFunc returns a
+//	       context DETACHED from the request context (context.WithoutCancel + its own cancel, which `sc` fires too);
+//	       "-" none
+//	step   m:<wire type>:<id>:<payload>:<tag>  client sends a JSON frame   (id "-" = none)
+//	           payload: n none | nul (null) | num (42) | obj ({}) | tok ({"Authorization":"Bearer x"}) | rej ({"reject":true})
+//	                    | sub (valid subscription, operation S<tag>)
+//	                    | badq (syntax error) | pq (valid, refused by an operation parameter mutator with a user-kind error)
+//	       g            client sends a frame that is not JSON
+//	       a            client closes the TCP connection abruptly      z  client sends a close frame
+//	       r:<cmd>:<tag> resolver event for the operation started with tag: emit | end | err (AddSubscriptionError+end)
+//	                    | adderr (AddSubscriptionError only) | panic
+//	       sc           server cancels the connection context          it  wait for the init timeout
+//	       ?            settle, then snapshot
+//	a step ending in "~" is not followed by a settle (it races with the next step)
 //
 // Output line:   <script> \t F <frames> \t <snapshots...>
 package main
@@ -79,7 +84,11 @@ type session struct {
 	insts    map[int]*inst
 	execs    []int // tags in order of Exec invocation
 	dupExec  bool
-	closes   []int // CloseFunc codes
+	ctxMiss  bool   // an operation ran under a context without the InitFunc's context value / the init payload sent
+	initKind string // payload kind of the first connection_init of the script ("" = none sent)
+	scDone   bool
+	dcancel  context.CancelFunc // cancel of the detached context handed out by the InitFunc (cfg d)
+	closes   []int              // CloseFunc codes
 	frames   []string
 	cclose   string // what the client's reader saw at the end: "" (still open) | code | abn
 	activity atomic.Int64
@@ -107,6 +116,9 @@ func (e es) Exec(ctx context.Context) graphql.ResponseHandler {
 	}
 	s.insts[tag] = in
 	s.execs = append(s.execs, tag)
+	if !s.ctxCarriesInit(ctx) {
+		s.ctxMiss = true
+	}
 	s.mu.Unlock()
 	s.activity.Add(1)
 	stubborn := s.has('s')
@@ -150,6 +162,26 @@ func (e es) again(ctx context.Context, in *inst, stubborn bool) *graphql.Respons
 	}
 }
 
+type initKey struct{}
+
+// ctxCarriesInit: the context an operation runs under descends from the context the InitFunc returned and
+// carries exactly the init payload the client sent (absent / null -> none).
+func (s *session) ctxCarriesInit(ctx context.Context) bool {
+	if (s.has('v') || s.has('d')) && ctx.Value(initKey{}) != "iv" {
+		return false
+	}
+	ip := transport.GetInitPayload(ctx)
+	switch s.initKind {
+	case "tok":
+		return ip.Authorization() == "Bearer x" && len(ip) == 1
+	case "obj":
+		return ip != nil && len(ip) == 0
+	case "n", "nul":
+		return ip == nil
+	}
+	return true
+}
+
 // operation parameter mutator: refuses operations whose extensions carry "refuse" with a user-kind error
 type refuser struct{}
 
@@ -163,6 +195,19 @@ func (refuser) MutateOperationParameters(ctx context.Context, raw *graphql.RawPa
 }
 
 // ---------------------------------------------------------------- running one script
+
+// serverCancel: the server side cancels the connection context (the request context and, when the InitFunc
+// handed out a detached one, that one too).
+func (s *session) serverCancel() {
+	s.hcancel()
+	s.mu.Lock()
+	s.scDone = true
+	dc := s.dcancel
+	s.mu.Unlock()
+	if dc != nil {
+		dc()
+	}
+}
 
 func settle(s *session, q time.Duration) {
 	deadline := time.Now().Add(100 * q)
@@ -181,6 +226,10 @@ func payloadFor(kind string, tag string) string {
 		return `42`
 	case "obj":
 		return `{}`
+	case "nul":
+		return `null`
+	case "tok":
+		return `{"Authorization":"Bearer x"}`
 	case "rej":
 		return `{"reject":true}`
 	case "sub":
@@ -245,6 +294,12 @@ func transportGoroutines() int {
 func runScript(line string, q time.Duration) string {
 	toks := strings.Fields(line)
 	s := &session{proto: toks[0], cfg: toks[1], insts: map[int]*inst{}}
+	for _, t := range toks[2:] {
+		if p := strings.Split(strings.TrimSuffix(t, "~"), ":"); len(p) == 5 && p[0] == "m" && p[1] == "connection_init" {
+			s.initKind = p[3]
+			break
+		}
+	}
 	hctx, hcancel := context.WithCancel(context.Background())
 	s.hcancel = hcancel
 	if s.has('r') {
@@ -258,6 +313,20 @@ func runScript(line string, q time.Duration) string {
 		InitFunc: func(ctx context.Context, p transport.InitPayload) (context.Context, *transport.InitPayload, error) {
 			if p["reject"] != nil {
 				return ctx, nil, errors.New("rejected")
+			}
+			if s.has('d') {
+				// a context detached from the request: only the transport's own logic (and `sc`) ends it
+				dctx, dcancel := context.WithCancel(context.WithValue(context.WithoutCancel(ctx), initKey{}, "iv"))
+				s.mu.Lock()
+				s.dcancel = dcancel
+				if s.scDone {
+					dcancel()
+				}
+				s.mu.Unlock()
+				return dctx, nil, nil
+			}
+			if s.has('v') {
+				return context.WithValue(ctx, initKey{}, "iv"), &transport.InitPayload{"ok": true}, nil
 			}
 			return ctx, nil, nil
 		},
@@ -289,7 +358,7 @@ func runScript(line string, q time.Duration) string {
 		srv.ServeHTTP(w, r.WithContext(hctx))
 	}))
 	defer hs.Close()
-	defer hcancel()
+	defer s.serverCancel()
 
 	sub := "graphql-ws"
 	if s.proto == "tws" {
@@ -367,6 +436,9 @@ func runScript(line string, q time.Duration) string {
 		if s.dupExec {
 			dup = " dupexec"
 		}
+		if s.ctxMiss {
+			dup += " ctxmiss"
+		}
 		return fmt.Sprintf("S n=%d ops=%s cf=%s cc=%s%s", len(s.frames), strings.Join(ex, ","), strings.Join(cl, ","), cc, dup)
 	}
 
@@ -417,7 +489,7 @@ func runScript(line string, q time.Duration) string {
 				rec += ":s"
 			}
 		case "sc":
-			hcancel()
+			s.serverCancel()
 		case "it":
 			time.Sleep(initTimeout + initTimeout/2 + 2*q)
 		case "?":
